@@ -14,6 +14,7 @@ Class Num (T : Type) := {
   nmin : T -> T -> T; nmax : T -> T -> T;  (* numpy.minimum/maximum: NaN-propagating *)
   ltb : T -> T -> bool; leb : T -> T -> bool; eqb : T -> T -> bool;  (* IEEE: false on NaN *)
   isnan : T -> bool; isfinite : T -> bool;
+  isposinf : T -> bool; isneginf : T -> bool;   (* x == inf, x == -inf *)
   fexp : T -> T; flog : T -> T; fcos : T -> T;
   fpow : T -> T -> T                (* numpy.power *)
 }.
